@@ -491,6 +491,15 @@ pub fn run(tier: Tier) -> i32 {
     ];
     let st = run_space(round2.len(), |i| verify(&round2[i].1, &[("e", round2[i].2)], round2[i].0, 1));
     rep.absorb("second-round", st);
+    // fourth review round: elements with content are placed like their empty forms; a use of a circle; polygons
+    let round4: Vec<(&str, String, BBox)> = vec![
+        ("with-content/foreignObject", format!("{a}<foreignObject id=\"e\" xy=\"#a|h 2\" wh=\"10 6\"><div xmlns=\"http://www.w3.org/1999/xhtml\">hi</div></foreignObject>"), BBox::new(42., 37., 52., 43.)),
+        ("with-content/foreignObject-empty", format!("{a}<foreignObject id=\"e\" xy=\"#a|h 2\" wh=\"10 6\"/>"), BBox::new(42., 37., 52., 43.)),
+        ("with-content/nested-svg", format!("<svg>{a}<svg id=\"e\" xy=\"#a@br\" wh=\"10 6\"><rect wh=\"3\"/></svg></svg>"), BBox::new(40., 60., 50., 66.)),
+        ("with-content/nested-svg-dependant", format!("<svg>{a}<svg id=\"s\" xy=\"#a@br\" wh=\"10 6\"><rect wh=\"3\"/></svg><rect id=\"e\" xy=\"#s|h 2\" wh=\"2\"/></svg>"), BBox::new(52., 62., 54., 64.)),
+    ];
+    let st = run_space(round4.len(), |i| verify(&round4[i].1, &[("e", round4[i].2)], round4[i].0, 1));
+    rep.absorb("fourth-round", st);
     // a <use> placed relative to another element: the box of its INSTANCE (the target's box, moved by the target's own
     // transform and by the use's x / y) is what is placed. Reference: base = (10,5)-(20,15); expected x / y of the use.
     let base = r##"<rect id="base" xy="10 5" wh="10"/>"##;
